@@ -627,7 +627,16 @@ impl<'tcx> Dumper<'tcx> {
     fn dump(&mut self) -> J {
         let tcx = self.tcx;
         let mut bodies: Vec<(String, J)> = Vec::new();
-        let keys: Vec<_> = tcx.mir_keys(()).iter().copied().collect();
+        let mut keys: Vec<_> = tcx.mir_keys(()).iter().copied().collect();
+        // constants and statics first: building a function's MIR may const-evaluate a constant it mentions
+        // (e.g. when promoting `!LOCAL_CONST`), which steals that constant's promoted MIR
+        keys.sort_by_key(|k| {
+            !matches!(
+                tcx.def_kind(k.to_def_id()),
+                DefKind::Const { .. } | DefKind::AssocConst { .. } | DefKind::Static { .. }
+            )
+        });
+        let mut stolen: Vec<J> = Vec::new();
         for ldid in keys {
             let did = ldid.to_def_id();
             let kind = tcx.def_kind(did);
@@ -641,6 +650,11 @@ impl<'tcx> Dumper<'tcx> {
             let name = tcx.opt_item_name(did).map(|x| x.to_string()).unwrap_or_default();
             let mut st = SpanTab::new();
             let (bsteal, psteal) = tcx.mir_promoted(ldid);
+            if bsteal.is_stolen() || psteal.is_stolen() {
+                // already consumed by const evaluation: only acceptable for constants (their value then stays opaque)
+                stolen.push(obj! {"path"=>s(path.clone()),"kind"=>s(format!("{:?}", kind))});
+                continue;
+            }
             let body = bsteal.borrow();
             let promoted = psteal.borrow();
             let bj = self.body_json(did, &body, &mut st);
@@ -774,6 +788,7 @@ impl<'tcx> Dumper<'tcx> {
             "crate"=>s(tcx.crate_name(LOCAL_CRATE).to_string()),
             "rustc"=>s(option_env!("CFG_VERSION").unwrap_or("nightly")),
             "bodies"=>J::O(bodies),
+            "stolen"=>arr(stolen),
             "adts"=>J::O(adts),
             "enums"=>J::O(enums),
         }
